@@ -130,6 +130,7 @@ func runC18(c *ctx) {
 	must(err)
 	secring := filepath.Join(repoRoot(), "pkg", "jsonsign", "testdata", "test-secring.gpg")
 	c18Capped(c)
+	c18ManyBlobs(c)
 	storages := []string{"memory", "localdisk", "diskpacked", "blobpacked"}
 	indexes := []string{"memory", "leveldb", "kv", "sqlite"}
 	n := 0
@@ -272,6 +273,56 @@ func c18Capped(c *ctx) {
 		c.count("enumerate", fmt.Sprintf("capped storage, limit %q", lim))
 		if strings.Join(all, ",") != strings.Join(refs, ",") {
 			c.violation(idx, "c18-enumerate", fmt.Sprintf("storage with a per-request maximum of 5, limit=%q: following continueAfter lists %d of %d refs in %d pages", lim, len(all), len(refs), len(pages)), nil)
+		}
+	}
+}
+
+// more blobs than the client's page (1000): the client's enumeration - plain and long-polling - must list them all
+func c18ManyBlobs(c *ctx) {
+	sto := &memory.Storage{}
+	var refs []string
+	for i := 0; i < 1100+c.rng.Intn(50); i++ {
+		content := fmt.Sprintf("one of many %d seed %d", i, c.seed)
+		br := blob.RefFromString(content)
+		sto.ReceiveBlob(context.Background(), br, strings.NewReader(content))
+		refs = append(refs, br.String())
+	}
+	sort.Strings(refs)
+	mux := http.NewServeMux()
+	mux.Handle("/bs/camli/enumerate-blobs", handlers.CreateEnumerateHandler(sto))
+	ts := httptest.NewServer(mux)
+	defer ts.Close()
+	base, err := client.New(client.OptionServer(ts.URL), client.OptionNoExternalConfig())
+	if err != nil {
+		c.rep.Notes = append(c.rep.Notes, "client: "+err.Error())
+		return
+	}
+	cl, err := base.NewPathClient("/bs") // a client of one storage prefix: no discovery
+	if err != nil {
+		c.rep.Notes = append(c.rep.Notes, "client: "+err.Error())
+		return
+	}
+	for _, wait := range []time.Duration{0, 2 * time.Second} {
+		ch := make(chan blob.SizedRef, 64)
+		var got []string
+		done := make(chan struct{})
+		go func() {
+			for sb := range ch {
+				got = append(got, sb.Ref.String())
+			}
+			close(done)
+		}()
+		var eerr error
+		ok, _ := withTimeout(30*time.Second, func() {
+			eerr = cl.EnumerateBlobsOpts(context.Background(), ch, client.EnumerateOpts{MaxWait: wait})
+		})
+		if ok {
+			<-done
+		}
+		c.rep.SpecChecks++
+		c.count("enumerate", fmt.Sprintf("client over %d blobs, max wait %v", len(refs), wait))
+		if !ok || eerr != nil || strings.Join(got, ",") != strings.Join(refs, ",") {
+			c.violation(-1, "c18-enumerate", fmt.Sprintf("client enumeration (max wait %v) of a store with %d blobs: %d listed, error %v, finished %v", wait, len(refs), len(got), eerr, ok), nil)
 		}
 	}
 }
